@@ -8,7 +8,9 @@ Traces == JsonDeserialize(IOEnv.TRACE_FILE)
 VARIABLES tid
 Tol == 200                       \* 2e-5: twice the solver tolerance documented by the library
 C(e) == Cls(e.cls, e.k)
-RayOK(t) == \A i, j \in 1..Len(t) : (t[i].op = "beta" /\ t[j].op = "beta" /\ Included(C(t[i]), C(t[j]))) => t[i].value <= t[j].value + Tol
+\* slack: the documented resolution of the method that measured the SMALLER class (0 for the SDP / eigenvalue methods; the bisection
+\* tolerance xtol plus the acceptance threshold of the convex-hull search, which reports points up to that far outside its hull)
+RayOK(t) == \A i, j \in 1..Len(t) : (t[i].op = "beta" /\ t[j].op = "beta" /\ Included(C(t[i]), C(t[j]))) => t[i].value <= t[j].value + Tol + t[i].slack
 InnerOK(t) == \A i \in 1..Len(t) : t[i].op = "inner" => (Included(Cls(t[i].cls, t[i].k), Cls(t[i].tcls, t[i].tk)) => t[i].verdict = TRUE)
 Known(t) == \A i \in 1..Len(t) : (t[i].op = "beta" => C(t[i]) \in Classes) /\ (t[i].op = "inner" => Cls(t[i].cls, t[i].k) \in Classes /\ Cls(t[i].tcls, t[i].tk) \in Classes)
 Init == tid = 1 /\ TLCSet(1, 0) /\ Assert(IsPartialOrder /\ TopBottom, "hierarchy is not a partial order")
